@@ -104,7 +104,7 @@ theorem fileStep_refines (fs : Fs) (fd : Fd) (op : FileOp) (c : Bytes)
         · simp
         · simp
         · simp
-        · simp [hdir]
+        · simp
         · intro q hq; simp [get_set fs fd.path q _ hp, hq]
   | seek off w =>
     simp only [fileStep, fileSeek, sysLseek, specStep, hfd]
@@ -122,7 +122,7 @@ theorem fileStep_refines (fs : Fs) (fd : Fd) (op : FileOp) (c : Bytes)
     simp only [fileStep, fileReadAll, fileSize_eq, sysRead, specStep, hdir, hfd]
     by_cases hacc : fd.acc = .wronly
     · simp [hacc, hget, hdir]
-    · simp [hacc, take_drop_all, hget, hdir]
+    · simp [hacc, take_drop_all, hget]
   | size =>
     simp [fileStep, fileSize_eq, specStep, hfd, hget, hdir]
 
